@@ -209,6 +209,9 @@ class Formatter(FormatterInterface):
         index = self(r.index)
         output = f"for {index} in range({begin}, {end}):\n"
         b = self(r.body).split("\n")
+        if all(not line.strip() or line.lstrip().startswith("#") for line in b):
+            # Python needs a statement in the loop body (a body of comments only is valid C)
+            b.append("pass")
         for line in b:
             output += f"    {line}\n"
         return output
